@@ -298,7 +298,27 @@ func ruleLookupTable(c *Ctx) {
 							found = true
 						}
 					}
-					c.ob(rule, key, fd.Pos(), found, "members of this component are emitted by the encoder but JSONLookup never consults it with jsonpointer.GetForToken")
+					why := "members of this component are emitted by the encoder but JSONLookup never consults it with jsonpointer.GetForToken"
+					// ... or answers every member of the component by name, each with its own field
+					if !found && sim != nil && len(sim.answered) > 0 {
+						var lacking []string
+						n := 0
+						for _, jf := range jsonFields(ft) {
+							if jf.Name == "" || jf.Name == "-" || jf.Name == "$ref" {
+								continue
+							}
+							n++
+							if sim.answered[jf.Name] != jf.GoName {
+								lacking = append(lacking, jf.Name)
+							}
+						}
+						if n > 0 && len(lacking) == 0 {
+							found = true
+						} else if n > len(lacking) {
+							why = fmt.Sprintf("JSONLookup answers the members of this component by name, but not %v (or not from the field of that name): the typed document and its JSON text disagree there", lacking)
+						}
+					}
+					c.ob(rule, key, fd.Pos(), found, why)
 				} else if mp, isMap := ft.Underlying().(*types.Map); isMap && emitted {
 					if b, ok := mp.Key().Underlying().(*types.Basic); ok && b.Kind() == types.String {
 						c.ob(rule, key, fd.Pos(), indexed[f.Name()], "map component is emitted member by member but JSONLookup never indexes it with the token")
